@@ -73,6 +73,17 @@ CHECKS = {
              'ids/datasets/keys, no repeats, ids from the dataset, keys distinct within and across rounds.',
         note='Outputs compared by content digest; the no-repeat clause applies to the round-indexed sampler only.',
         design='5/C13'),
+    'C14': dict(
+        technique='TLA+ definitions of every discrete built-in metric (MetricDefs.tla) evaluated by TLC on the full small '
+                  'domain (MetricCases.tla) with the documented identities as invariants; the complete case table '
+                  'replayed into each metric (vmapped and direct) with exact comparison of statistic and result',
+        text='TLC evaluates the definitions on every (metric, constructor arguments, target, score vector) of the small '
+             'domain - all ties, masked targets, fully masked sequences, k from -C to C+1, logit masks, per-position '
+             'variants - and proves Top1=Accuracy, tie-break to the lowest index, confusion-matrix trace, per-domain '
+             'restriction; every table row is executed on the real metric and compared exactly.',
+        note='Cross-entropy values use a float64 NumPy log-softmax as numeric leaf; 3 classes, scores 0..2, sequence '
+             'length 2 (quick) / 3 (thorough).',
+        design='5/C14'),
     'C15': dict(
         technique='TLA+ specs MultiBatch.tla (carry-over buffer machine), BufShuffle.tla (swap machine), RepIter.tla '
                   'model-checked by TLC; MultiBatch final states replayed into padded_batch_client_datasets / '
